@@ -69,6 +69,7 @@ def patch_event(darsia, rng, n, k, relp, relq, h, omode, colour, tid):
         e["blend"] = -1
         e["blend_error"] = repr(ex)[:120]
     e["cv"] = np.asarray(P.global_corners_voxels).astype(int).tolist()
+    e["lcv"] = np.asarray(P.local_corners_voxels).astype(int).tolist()      # corners of each patch relative to its own top-left corner
     e["cx"] = [[lat(P.global_corners_cartesian[i][j]) for j in range(k[1])] for i in range(k[0])]
     e["ctr_x"] = [[lat(P.global_centers_cartesian[i][j], 8)[0] for j in range(k[1])] for i in range(k[0])]
     e["ctr_v"] = np.asarray(P.global_centers_voxels).astype(int).tolist()
